@@ -510,10 +510,16 @@ def setup():
         build_harness()
         regen(sorted(GEN_FILES))
         ensure_makefile()
-        rc, out = sh(["make", "-j16"], cwd=COQ, timeout=6000)
+        rc, out = sh(["make", "-j16", "-k"], cwd=COQ, timeout=6000)
         if rc != 0:
-            log(out[-6000:])
-            sys.exit(2)
+            # extension theorems (cfg extra_files: statements no property makes) must not stop the set-up: the checks
+            # that list them report their state as a note.  Anything else that does not build is a set-up failure.
+            extra = {f for c in PROPS.values() for f in c.get("extra_files", [])}
+            broken = set(re.findall(r'File "\./([^"]+)", line \d+', out))
+            if not broken or not broken <= extra:
+                log(out[-6000:])
+                sys.exit(2)
+            log("note: extension files do not build on this tree (reported as notes by their checks): " + ", ".join(sorted(broken)))
         for cmd in SETUP_CMDS:   # per-property setup steps (lib/props.d/*.py: SETUP), e.g. extracted models
             rc, out = sh([os.path.join(ROOT, cmd[0])] + cmd[1:], cwd=ROOT, timeout=3000)
             if rc != 0:
